@@ -322,7 +322,15 @@ func genC03(rng *rand.Rand, seed uint64, tier string) *Script {
 		eoas = append(eoas, NewWallet("w", i).Addr)
 	}
 	for i := 0; i < nRand; i++ {
-		g.Contracts = append(g.Contracts, GenContract{Addr: RandAddr(i).Hex(), Code: hex.EncodeToString(genProgram(rng, i, eoas, nil)), Balance: pick(rng, "", "1000000")})
+		c := GenContract{Addr: RandAddr(i).Hex(), Code: hex.EncodeToString(genProgramStyled(rng, i, eoas, nil, pick(rng, 0, 1, 1))), Balance: pick(rng, "", "1000000")}
+		if rng.IntN(3) > 0 {
+			// committed non-zero slots: clearing them earns refunds, refilling them takes refunds back
+			c.Storage = map[string]string{}
+			for s := 0; s < 1+rng.IntN(4); s++ {
+				c.Storage[fmt.Sprintf("0x%064x", s)] = fmt.Sprintf("0x%064x", pick(rng, 1, 0xff))
+			}
+		}
+		g.Contracts = append(g.Contracts, c)
 	}
 	s := &Script{Prop: "C03", Seed: seed, Gen: g, Extra: map[string]string{}}
 	ops := []Op{{K: "block", Dt: 5}}
@@ -334,7 +342,10 @@ func genC03(rng *rand.Rand, seed uint64, tier string) *Script {
 	nb := 4 + rng.IntN(8)
 	for b := 0; b < nb; b++ {
 		for i, n := 0, 1+rng.IntN(5); i < n; i++ {
-			switch k := rng.IntN(10); {
+			switch k := rng.IntN(12); {
+			case k >= 10: // EVM-level, with plenty of gas and either mode
+				ops = append(ops, Op{K: "eth", W: rng.IntN(g.Wallets), To: RandAddr(rng.IntN(nRand)).Hex(), Typ: pick(rng, 0, 2), Price: "b+1", Tip: "1",
+					Gas: pick(rng, "i+400000", "i+2000000"), Val: pick(rng, "0", "0", "1"), Data: hexWord(rng.IntN(2))})
 			case k < 5:
 				ops = append(ops, genWitness(rng, &g))
 			case k < 7: // single precompile calls through chains with reverting frames
